@@ -347,10 +347,11 @@ def show_frac(q):
 def measure_timing(tm):
     """wall time (us, best of up to 3) of the three programs of a scaling measurement: small (n_small, k steps), base (n_big, 0 steps), big (n_big, k steps)"""
     best = {}
+    alloc = tm.get('metric') == 'alloc'          # bytes requested from the allocator instead of wall time (deterministic: one run)
     for key in ('small', 'base', 'big'):
         ts = []
-        for _ in range(3):
-            o = nlrun(['#TIMED ' + tm[key]], 'release')[0]
+        for _ in range(1 if alloc else 3):
+            o = nlrun([('#ALLOC ' if alloc else '#TIMED ') + tm[key]], 'release')[0]
             mm = re.match(r'T (\d+) (.*)', o)
             if mm and mm.group(2).startswith('OK'): ts.append(int(mm.group(1)))
             if ts and ts[-1] > 1_500_000: break            # clearly slow already: do not repeat
@@ -358,7 +359,7 @@ def measure_timing(tm):
     return best
 def timing_is_slow(tm, best):
     if best.get('small') is None or best.get('big') is None: return None
-    return best['big'] > tm.get('ratio', 5) * max(best['small'], best.get('base') or 0, 5000)
+    return best['big'] > tm.get('ratio', 5) * max(best['small'], best.get('base') or 0, 5000 if tm.get('metric') != 'alloc' else 1 << 20)
 
 def finish(prop, tier, seed, merged, t0, level='model_checking', bounds=None, outside=None, assumptions=None, kernels=None, th=None,
            validated=0, validation_failures=None, extra_cov=None, kani=None):
@@ -378,10 +379,11 @@ def finish(prop, tier, seed, merged, t0, level='model_checking', bounds=None, ou
         v['native'] = {'small_us': best.get('small'), 'big_us': best.get('big')}
         if best.get('small') is None or best.get('big') is None: v['replay']['program'] = None; continue
         # small: size n_small with k mutations; base: size n_big with no mutation (construction cost); big: size n_big with k mutations
-        ref = max(best['small'], best.get('base') or 0, 5000)
+        unit = 'bytes allocated' if tm.get('metric') == 'alloc' else 'us'
+        ref = max(best['small'], best.get('base') or 0, 5000 if unit == 'us' else 1 << 20)
         slow = best['big'] > tm.get('ratio', 5) * ref
-        v['replay']['program'] = tm['big']; v['replay']['expect'] = f'time(n_big, k steps) <= {tm.get("ratio", 5)} x max(time(n_small, k steps), time(n_big, 0 steps), 5 ms)'
-        desc = f'small {best["small"]} us, base {best.get("base")} us, big {best["big"]} us'
+        v['replay']['program'] = tm['big']; v['replay']['expect'] = f'cost(n_big, k steps) <= {tm.get("ratio", 5)} x max(cost(n_small, k steps), cost(n_big, 0 steps), floor) in {unit}'
+        desc = f'small {best["small"]} {unit}, base {best.get("base")} {unit}, big {best["big"]} {unit}'
         v['native'] = {'dev': desc, 'release': desc}
         v['timing_confirmed'] = slow
     specs = [v for v in viol if v.get('replay') and v['replay'].get('program') and not v['replay'].get('timing')]
